@@ -344,11 +344,13 @@ def declared(facts, universe):
         if n["flat"] or n["shared_root"]:
             continue
         first = strip_set(n["name"])
-        if first.startswith(("internal.", "original.")):
+        # setup in the wide sense: the internal setup tests and every test another test depends on
+        if first.startswith(("internal.", "original.")) or n["cleanup"]:
             seen[(n["nets"], first)] += 1
+    total = collections.Counter((n["nets"], strip_set(n["name"])) for n in nodes if not n["flat"] and not n["shared_root"])
     for (w, nm), c in seen.items():
-        if c > 1:
-            errs.append(("setup-duplicated", f"setup {nm} is represented {c} times for worker {w}"))
+        if total[(w, nm)] > 1:
+            errs.append(("setup-duplicated", f"setup {nm} is represented {total[(w, nm)]} times for worker {w}"))
     return errs
 
 
